@@ -28,7 +28,7 @@ ASSUMPTIONS = [
     "n ranges over s+1..s+12 (plus the identity test in the ring of exponential polynomials for direct cases)",
 ]
 TIMEOUT = {"quick": 45, "thorough": 90}
-DEADLINE = {"quick": 75, "thorough": 1100}
+DEADLINE = {"quick": 75, "thorough": 1000}
 MIN_DECIDING = {"quick": 60, "thorough": 600}
 NDIRECT = {"quick": 170, "thorough": 3200}
 NCLI = {"quick": 30, "thorough": 420}
